@@ -62,6 +62,8 @@ func wfRangeReq(o *ObjectRangeRequest) bool {
 //@ requires          order:   min <= max
 //@ ensures [C04,C14] clamp:   imp(ret1 == nil, min <= ret0 && ret0 <= max)
 //@ ensures [C04,C14] dflt:    imp(ret1 == nil && in == "", ret0 == ite(defaultValue < min, min, ite(defaultValue > max, max, defaultValue)))
+//@ ensures [C04,C14] val:     imp(ret1 == nil && in != "", ret0 == ite(nth(strconv.ParseInt(in, 10, 0), 0) < min, min,
+//@                              ite(nth(strconv.ParseInt(in, 10, 0), 0) > max, max, nth(strconv.ParseInt(in, 10, 0), 0))))
 //@ ensures [C09]     err:     imp(ret1 != nil, errcode(ret1) == ErrInvalidArgument)
 //@ modifies nothing
 
@@ -204,6 +206,11 @@ func wfRangeReq(o *ObjectRangeRequest) bool {
 //@ ghost part_id : Str
 //@ ghost part_no : Int
 //@ ghost part_input : If
+// the last ListParts request handed to the multipart backend
+//@ ghost lp_count : Int
+//@ ghost lp_marker : Int
+//@ ghost lp_limit : Int
+//@ ghost lp_id : Str
 //@ ghost get_count : Int
 //@ ghost get_bucket : Str
 //@ ghost get_key : Str
@@ -857,6 +864,8 @@ func wfRangeReq(o *ObjectRangeRequest) bool {
 //@ requires           limit:  limit >= 1
 //@ iface gofakes3.MultipartBackend.ListParts
 //@ requires [C14]     args:   marker >= 0 && limit >= 0
+//@ modifies lp_count, lp_marker, lp_limit, lp_id
+//@ ensures            log:    lp_count == old(lp_count) + 1 && lp_marker == marker && lp_limit == limit && lp_id == uploadID
 //@ iface gofakes3.MultipartBackend.AbortMultipartUpload
 //@ iface gofakes3.MultipartBackend.CompleteMultipartUpload
 //@ requires           in:     input != nil
@@ -1022,6 +1031,9 @@ func wfRangeReq(o *ObjectRangeRequest) bool {
 //@                               (typeis(dyn(put_input, *hashingReader).inner, *chunkedReader) && dyn(dyn(put_input, *hashingReader).inner, *chunkedReader) != nil &&
 //@                                dyn(dyn(put_input, *hashingReader).inner, *chunkedReader).inner == old(r.Body))))
 //@ ensures [C01]      once:   put_count <= old(put_count) + 1
+//@ ensures [C01]      meta:   imp(put_count == old(put_count) + 1, allstr(k, imp(has(old(r.Header), k) && k != "Last-Modified" &&
+//@                              (k == "Content-Type" || k == "Content-Disposition" || k == "Content-Encoding" || strings.HasPrefix(k, "X-Amz-")),
+//@                              smhas(put_meta, k) && smval(put_meta, k) == old(r.Header)[k][0])))
 //@ ensures [C01]      etag:   imp(err == nil && put_count == old(put_count) + 1, hdr_set(w.Header())["ETag"])
 //@ ensures [C08]      reject: imp(err != nil && errcode(err) != "" && !g.autoBucket, store_gen == old(store_gen))
 //@ ensures [C08]      badlen: imp(err == nil && resp_status(w) == 400 && old(resp_status(w)) != 400 && !g.autoBucket, store_gen == old(store_gen))
@@ -1062,6 +1074,13 @@ func wfRangeReq(o *ObjectRangeRequest) bool {
 //@ func (*GoFakeS3).listMultipartUploadParts
 //@ props C09 C14
 //@ requires           inv:    gInv(g) && w != nil && rqInv(r)
+//@ let PMARK = nth(strconv.ParseInt(old(r.URL).Query().Get("part-number-marker"), 10, 0), 0)
+//@ let PMAX = nth(strconv.ParseInt(old(r.URL).Query().Get("max-parts"), 10, 0), 0)
+//@ ensures [C14]      askid:  imp(lp_count == old(lp_count) + 1, lp_id == uploadID)
+//@ ensures [C14]      askmark: imp(lp_count == old(lp_count) + 1,
+//@                              lp_marker == ite(old(r.URL).Query().Get("part-number-marker") == "", 0, ite(PMARK < 0, 0, ite(PMARK > 9223372036854775807, 9223372036854775807, PMARK))))
+//@ ensures [C14]      asklim: imp(lp_count == old(lp_count) + 1,
+//@                              lp_limit == ite(old(r.URL).Query().Get("max-parts") == "", DefaultMaxUploadParts, ite(PMAX < 0, 0, ite(PMAX > MaxUploadPartsLimit, MaxUploadPartsLimit, PMAX))))
 //@ func (*GoFakeS3).getBucketVersioning
 //@ props C09
 //@ requires           inv:    gInv(g) && w != nil && rqInv(r)
@@ -1072,6 +1091,8 @@ func wfRangeReq(o *ObjectRangeRequest) bool {
 //@ func prefixFromQuery
 //@ props C09 C03
 //@ ensures [C03]      has:    ret0.HasPrefix == (ret0.Prefix != "") || !ret0.HasPrefix
+//@ ensures [C03]      prefix: ret0.Prefix == query.Get("prefix") && ret0.HasPrefix == (has(query, "prefix") && query.Get("prefix") != "")
+//@ ensures [C03]      delim:  ret0.Delimiter == query.Get("delimiter") && ret0.HasDelimiter == (has(query, "delimiter") && query.Get("delimiter") != "")
 //@ modifies nothing
 //@ func listBucketPageFromQuery
 //@ props C09 C04
